@@ -1,6 +1,7 @@
 import Tx3Proofs.C07
 import Tx3Proofs.C07Reduce
 import Tx3Proofs.C07Confluence
+import Tx3Proofs.C07Tx
 #print axioms Tx3.Expr.C07_args_fees
 #print axioms Tx3.Expr.C07_args_inputs
 #print axioms Tx3.Expr.C07_fees_inputs
@@ -23,3 +24,5 @@ import Tx3Proofs.C07Confluence
 #print axioms Tx3.C07_reduce_then_stage
 #print axioms Tx3.C07_two_stages
 #print axioms Tx3.sealedb_Sealed
+#print axioms Tx3.Tx.mapM_rel
+#print axioms Tx3.C07_tx_reduce_commutes_with_stage
